@@ -333,6 +333,7 @@ func c11(r *lp.Run) {
 	c11DocSplit(r, r.Rng.Fork(1105))
 	c11Positions(r)
 	c11Listing(r)
+	c11Lines(r, r.Rng.Fork(1106))
 	// past failures and witnesses of known classes
 	for _, o := range corpusObjs("C11") {
 		if d, ok := o["document"].(string); ok {
